@@ -18,6 +18,7 @@ RULE = (
     "result text embeds into s as a subsequence that keeps every character outside the conservative escape shadow "
     "(vf/sgr.py:shadow); no introducer -> verbatim and unformatted; only text + well-formed numeric CSI -> text is exactly s "
     "without the sequences. Non-trivial: >=1 introducer and >=1 ordinary character after it."
+    ' Plus very long numeric parameters (5000 digits), 600 parameters in one sequence, 45-token mixes forcing the fallback path, text pieces up to 200 characters.'
 )
 ASSUMPTIONS = [
     "'part of an escape sequence' is judged by a conservative scanner (introducer, char after ESC, run of 0x20-0x3F, one final byte)",
